@@ -76,7 +76,8 @@ func cloneInstr(in ssa.Instruction) ssa.Instruction {
 
 type canonStats struct {
 	functions, inlinedCalls, absorbed int
-	deadClosures, promoted            int
+	deadClosures, promoted, split     int
+	threaded                          int
 	absorbedNames                     []string
 }
 
@@ -118,7 +119,8 @@ func (il *inliner) barrier(f *ssa.Function) bool {
 	if anchors[key{pkg, recv, name}] {
 		return true
 	}
-	if name == "Ok" || name == "Hash" || name == "String" || name == "Error" {
+	// methods the rules recognise by name (ast/token/lexer/parser String and Error methods are behind the package barrier)
+	if (name == "Ok" && (pkg == "shell" || pkg == "task")) || (name == "Hash" && pkg == "hash") {
 		return true
 	}
 	if il.c.isTaskHitTest(f) || il.c.isExistsTest(f) || il.isGlobHit(f) {
@@ -268,6 +270,42 @@ type emitCtx struct {
 	host   *ssa.Function // function whose body is being rebuilt
 	out    *[]*ssa.BasicBlock
 	nextID *int
+	vmaps  []map[ssa.Value]ssa.Value // value maps of the enclosing emit levels (outermost first)
+}
+
+// devirtualise returns a call equivalent to call whose callee is known statically where inlining has made it so: a
+// parameter or captured variable that is bound to a function, a closure or a method value at this inlined call site, and a
+// bound method value (`x.m` used as a function) called directly, which becomes the method call x.m(...).
+func (e *emitCtx) devirtualise(call *ssa.Call, look func(ssa.Value) ssa.Value) ssa.Instruction {
+	cur := call
+	rewrite := func(value ssa.Value, args []ssa.Value) {
+		nc := *cur
+		nc.Call.Value = value
+		nc.Call.Args = args
+		setField(&nc, "referrers", nil)
+		cur = &nc
+	}
+	switch cur.Call.Value.(type) {
+	case *ssa.Parameter, *ssa.FreeVar:
+		switch cv := look(cur.Call.Value).(type) {
+		case *ssa.Function, *ssa.MakeClosure:
+			rewrite(cv, append([]ssa.Value(nil), cur.Call.Args...))
+		}
+	}
+	if mc, isMC := cur.Call.Value.(*ssa.MakeClosure); isMC && len(mc.Bindings) == 1 {
+		if w, _ := mc.Fn.(*ssa.Function); w != nil && strings.HasPrefix(w.Synthetic, "bound method wrapper") && len(w.Blocks) == 1 {
+			var m *ssa.Function
+			for _, wi := range w.Blocks[0].Instrs {
+				if wc, isCall := wi.(*ssa.Call); isCall {
+					m = wc.Call.StaticCallee()
+				}
+			}
+			if m != nil && m.Signature.Recv() != nil {
+				rewrite(m, append([]ssa.Value{look(mc.Bindings[0])}, cur.Call.Args...))
+			}
+		}
+	}
+	return cur
 }
 
 func (e *emitCtx) newBlock(comment string) *ssa.BasicBlock {
@@ -337,13 +375,17 @@ func (e *emitCtx) emit(f *ssa.Function, inlined bool, args, binds []ssa.Value, d
 	for _, ob := range order {
 		first[ob] = e.newBlock(ob.Comment)
 	}
+	chain := append(append([]map[ssa.Value]ssa.Value(nil), e.vmaps...), vmap)
 	look := func(v ssa.Value) ssa.Value {
-		for i := 0; i < 8; i++ {
-			n, ok := vmap[v]
-			if !ok {
-				return v
+	next:
+		for i := 0; i < 16; i++ {
+			for k := len(chain) - 1; k >= 0; k-- {
+				if n, ok := chain[k][v]; ok {
+					v = n
+					continue next
+				}
 			}
-			v = n
+			return v
 		}
 		return v
 	}
@@ -386,6 +428,12 @@ func (e *emitCtx) emit(f *ssa.Function, inlined bool, args, binds []ssa.Value, d
 					return
 				}
 			}
+			// src is the instruction the value map and the referrers are keyed on; in may be replaced by an equivalent call
+			// whose callee has become known
+			src := in
+			if call, ok := in.(*ssa.Call); ok && !call.Call.IsInvoke() {
+				in = e.devirtualise(call, look)
+			}
 			// inlinable static call?
 			if call, ok := in.(*ssa.Call); ok && depth > 0 {
 				g := call.Common().StaticCallee()
@@ -411,7 +459,10 @@ func (e *emitCtx) emit(f *ssa.Function, inlined bool, args, binds []ssa.Value, d
 					for _, a := range call.Common().Args {
 						cargs = append(cargs, look(a))
 					}
+					saved := e.vmaps
+					e.vmaps = chain
 					entry, rs, _ := e.emit(g, true, cargs, binds, depth-1, append(stack, f))
+					e.vmaps = saved
 					il.nInlined++
 					il.wasInlined[g] = true
 					j := &ssa.Jump{}
@@ -444,18 +495,19 @@ func (e *emitCtx) emit(f *ssa.Function, inlined bool, args, binds []ssa.Value, d
 							results[k] = phi
 						}
 					}
+					srcVal, _ := src.(ssa.Value)
 					if nres == 1 {
-						if results[0] != nil {
-							vmap[call] = results[0]
+						if results[0] != nil && srcVal != nil {
+							vmap[srcVal] = results[0]
 						}
-					} else if nres > 1 {
+					} else if nres > 1 && srcVal != nil {
 						// users are Extracts of the tuple
-						for _, ref := range valueReferrers(call) {
+						for _, ref := range valueReferrers(srcVal) {
 							if ex, ok := ref.(*ssa.Extract); ok && results[ex.Index] != nil {
 								vmap[ex] = results[ex.Index]
 							}
 						}
-						vmap[call] = tupleMarker
+						vmap[srcVal] = tupleMarker
 					}
 					cur = cont
 					return
@@ -471,12 +523,12 @@ func (e *emitCtx) emit(f *ssa.Function, inlined bool, args, binds []ssa.Value, d
 				return
 			}
 			cl := cloneInstr(in)
-			if d, isSyn := il.synthOf[in]; isSyn {
+			if d, isSyn := il.synthOf[src]; isSyn {
 				il.origOf[cl] = d
 			} else {
-				il.origOf[cl] = in
+				il.origOf[cl] = src
 			}
-			if ov, ok := in.(ssa.Value); ok {
+			if ov, ok := src.(ssa.Value); ok {
 				vmap[ov] = cl.(ssa.Value)
 			}
 			e.add(cur, cl)
@@ -554,58 +606,9 @@ func (c *Ctx) canonicalise(depth int) *canonStats {
 	}
 	// install
 	for f, blocks := range newBlocks {
-		// drop unreachable blocks (a continuation after a callee that never returns)
-		reach := map[*ssa.BasicBlock]bool{}
-		var walk func(b *ssa.BasicBlock)
-		walk = func(b *ssa.BasicBlock) {
-			if reach[b] {
-				return
-			}
-			reach[b] = true
-			for _, s := range b.Succs {
-				walk(s)
-			}
-		}
-		walk(blocks[0])
-		if r := newRecover[f]; r != nil {
-			walk(r)
-		}
-		var kept []*ssa.BasicBlock
-		for _, b := range blocks {
-			if reach[b] {
-				kept = append(kept, b)
-			}
-		}
-		for _, b := range kept {
-			// remove predecessors that were dropped, keeping phi operands aligned
-			var preds []*ssa.BasicBlock
-			var keepIdx []int
-			for i, p := range b.Preds {
-				if reach[p] {
-					preds = append(preds, p)
-					keepIdx = append(keepIdx, i)
-				}
-			}
-			if len(preds) != len(b.Preds) {
-				for _, in := range b.Instrs {
-					if phi, ok := in.(*ssa.Phi); ok {
-						var ed []ssa.Value
-						for _, i := range keepIdx {
-							if i < len(phi.Edges) {
-								ed = append(ed, phi.Edges[i])
-							}
-						}
-						phi.Edges = ed
-					}
-				}
-				b.Preds = preds
-			}
-		}
-		for i, b := range kept {
-			b.Index = i
-		}
-		f.Blocks = kept
+		f.Blocks = blocks
 		f.Recover = newRecover[f]
+		pruneUnreachable(f)
 	}
 	// closures that were inlined where they are called leave a MakeClosure nobody uses; the cells they captured are then
 	// plain locals again and are promoted to registers, as ssa's own lifting pass would have done
@@ -614,7 +617,20 @@ func (c *Ctx) canonicalise(depth int) *canonStats {
 			continue
 		}
 		st.deadClosures += dropDeadClosures(f)
-		st.promoted += promoteLocals(f)
+		for round := 0; round < 6; round++ {
+			ns := splitStructs(f)
+			np := promoteLocals(f)
+			nt := 0
+			if !noThread[shortPkg(fnPkgPath(f))] {
+				nt = threadJumps(f)
+			}
+			st.split += ns
+			st.promoted += np
+			st.threaded += nt
+			if ns == 0 && np == 0 && nt == 0 {
+				break
+			}
+		}
 	}
 	// referrers and register numbers
 	for _, f := range c.ModFuncs {
@@ -699,7 +715,7 @@ func isMethodOfInterfaceImpl(c *Ctx, f *ssa.Function) bool {
 }
 
 func describeCanon(st *canonStats) string {
-	return fmt.Sprintf("canonicalised %d functions: %d static calls of module helpers inlined, %d helpers absorbed (%s), %d unused closures dropped, %d local cells promoted to registers", st.functions, st.inlinedCalls, st.absorbed, strings.Join(st.absorbedNames, ", "), st.deadClosures, st.promoted)
+	return fmt.Sprintf("canonicalised %d functions: %d static calls of module helpers inlined, %d helpers absorbed (%s), %d unused closures dropped, %d local structs split, %d local cells promoted to registers, %d edges threaded past a decided test", st.functions, st.inlinedCalls, st.absorbed, strings.Join(st.absorbedNames, ", "), st.deadClosures, st.split, st.promoted, st.threaded)
 }
 
 var _ = types.Typ
@@ -974,4 +990,645 @@ func promoteLocals(f *ssa.Function) int {
 	}
 	f.Locals = locals
 	return n
+}
+
+// ---- scalar replacement of local structs ---------------------------------------------------------------------------------------------
+//
+// A refactoring that gathers a function's locals into a small struct with methods (a builder, a session, a collector) turns
+// registers into fields of a local cell once the methods are inlined. splitStructs splits every local struct cell that is only
+// used field by field (or copied whole into / from another such cell) into one cell per field; promoteLocals then turns those
+// into registers. The result is the SSA the code would have had with plain local variables.
+
+func usersOf(f *ssa.Function) map[ssa.Value][]ssa.Instruction {
+	users := map[ssa.Value][]ssa.Instruction{}
+	for _, b := range f.Blocks {
+		for _, in := range b.Instrs {
+			seen := map[ssa.Value]bool{}
+			for _, op := range in.Operands(nil) {
+				if *op != nil && !seen[*op] {
+					seen[*op] = true
+					users[*op] = append(users[*op], in)
+				}
+			}
+		}
+	}
+	return users
+}
+
+func structOf(a *ssa.Alloc) *types.Struct {
+	st, _ := a.Type().Underlying().(*types.Pointer).Elem().Underlying().(*types.Struct)
+	return st
+}
+
+// materialised: temporaries built by splitStructs to hand a whole struct value to a user; never split again.
+var materialised = map[*ssa.Alloc]bool{}
+
+func splitStructs(f *ssa.Function) int {
+	reach := map[*ssa.BasicBlock]bool{}
+	for _, b := range rpo(f.Blocks) {
+		reach[b] = true
+	}
+	users := usersOf(f)
+	cand := map[*ssa.Alloc]bool{}
+	for _, b := range f.Blocks {
+		if !reach[b] {
+			continue
+		}
+		for _, in := range b.Instrs {
+			if a, ok := in.(*ssa.Alloc); ok && structOf(a) != nil && structOf(a).NumFields() > 0 && !materialised[a] {
+				cand[a] = true
+			}
+		}
+	}
+	asCand := func(v ssa.Value) *ssa.Alloc {
+		a, ok := v.(*ssa.Alloc)
+		if ok && cand[a] {
+			return a
+		}
+		return nil
+	}
+	// a whole-struct load that is only copied into another candidate or has fields extracted from it is replaced field by
+	// field; any other whole load gets the value materialised in a temporary at that point
+	loadOK := func(l *ssa.UnOp) bool {
+		for _, u := range users[l] {
+			switch x := u.(type) {
+			case *ssa.Store:
+				if x.Val != ssa.Value(l) || asCand(x.Addr) == nil || !reach[x.Block()] {
+					return false
+				}
+			case *ssa.Field:
+			case *ssa.DebugRef:
+			default:
+				return false
+			}
+		}
+		return true
+	}
+	for changed := true; changed; {
+		changed = false
+		for a := range cand {
+			ok := true
+			fieldStore, fieldLoad := false, false
+			var under func(x *ssa.FieldAddr)
+			under = func(x *ssa.FieldAddr) {
+				for _, uu := range users[x] {
+					switch y := uu.(type) {
+					case *ssa.Store:
+						if y.Addr == ssa.Value(x) {
+							fieldStore = true
+						}
+					case *ssa.UnOp:
+						fieldLoad = true
+					case *ssa.FieldAddr:
+						under(y)
+					}
+				}
+			}
+			for _, u := range users[a] {
+				if fa, isFA := u.(*ssa.FieldAddr); isFA {
+					under(fa)
+				}
+			}
+			readBack := fieldStore && fieldLoad
+			for _, u := range users[a] {
+				if !reach[u.Block()] {
+					ok = false
+					break
+				}
+				switch x := u.(type) {
+				case *ssa.FieldAddr:
+					for _, uu := range users[x] {
+						switch y := uu.(type) {
+						case *ssa.Store:
+							if y.Addr != ssa.Value(x) || y.Val == ssa.Value(x) {
+								ok = false
+							}
+						case *ssa.UnOp:
+							if y.Op != token.MUL {
+								ok = false
+							}
+						case *ssa.FieldAddr:
+							if y.X != ssa.Value(x) {
+								ok = false
+							}
+						case *ssa.DebugRef:
+						default:
+							ok = false
+						}
+					}
+				case *ssa.UnOp:
+					if x.Op != token.MUL {
+						ok = false
+					}
+				case *ssa.Store:
+					if x.Addr != ssa.Value(a) || x.Val == ssa.Value(a) {
+						ok = false
+					}
+				case *ssa.DebugRef:
+				default:
+					ok = false
+				}
+			}
+			// (only cells used as mutable state are worth splitting: some field is both stored and loaded on its own. A composite
+			// literal that is filled and then used whole, or a copy whose fields are only read, stays as it is)
+			if !ok || !readBack {
+				delete(cand, a)
+				changed = true
+			}
+		}
+	}
+	if len(cand) == 0 {
+		return 0
+	}
+	mk := func(in ssa.Instruction, b *ssa.BasicBlock) ssa.Instruction {
+		setField(in, "block", b)
+		return in
+	}
+	fieldCells := map[*ssa.Alloc][]*ssa.Alloc{}
+	repl := map[ssa.Value]ssa.Value{}
+	for _, b := range f.Blocks {
+		var out []ssa.Instruction
+		for _, in := range b.Instrs {
+			switch x := in.(type) {
+			case *ssa.Alloc:
+				if !cand[x] {
+					break
+				}
+				st := structOf(x)
+				for i := 0; i < st.NumFields(); i++ {
+					c := &ssa.Alloc{Comment: x.Comment + "." + st.Field(i).Name(), Heap: x.Heap}
+					setField(c, "typ", types.NewPointer(st.Field(i).Type()))
+					setField(c, "pos", x.Pos())
+					fieldCells[x] = append(fieldCells[x], c)
+					out = append(out, mk(c, b))
+				}
+				continue
+			}
+			out = append(out, in)
+		}
+		b.Instrs = out
+	}
+	// (cells are created in a first pass so that copies between candidates can refer to them wherever they are allocated)
+	loadFields := map[*ssa.UnOp][]ssa.Value{}
+	var newLocals []*ssa.Alloc
+	for _, b := range f.Blocks {
+		var out []ssa.Instruction
+		for _, in := range b.Instrs {
+			switch x := in.(type) {
+			case *ssa.FieldAddr:
+				if a := asCand(x.X); a != nil {
+					repl[x] = fieldCells[a][x.Field]
+					continue
+				}
+			case *ssa.UnOp:
+				if a := asCand(x.X); a != nil && x.Op == token.MUL {
+					var fields []ssa.Value
+					for _, c := range fieldCells[a] {
+						l := &ssa.UnOp{Op: token.MUL, X: c}
+						setField(l, "typ", c.Type().Underlying().(*types.Pointer).Elem())
+						setField(l, "pos", x.Pos())
+						out = append(out, mk(l, b))
+						fields = append(fields, l)
+					}
+					if loadOK(x) {
+						loadFields[x] = fields
+						continue
+					}
+					// some user needs the whole value: build it in a temporary here
+					tmp := &ssa.Alloc{Comment: a.Comment + " (whole)"}
+					setField(tmp, "typ", a.Type())
+					setField(tmp, "pos", x.Pos())
+					materialised[tmp] = true
+					out = append(out, mk(tmp, b))
+					newLocals = append(newLocals, tmp)
+					for i, fv := range fields {
+						fa := &ssa.FieldAddr{X: tmp, Field: i}
+						setField(fa, "typ", fieldCells[a][i].Type())
+						setField(fa, "pos", x.Pos())
+						out = append(out, mk(fa, b))
+						out = append(out, mk(&ssa.Store{Addr: fa, Val: fv}, b))
+					}
+					whole := &ssa.UnOp{Op: token.MUL, X: tmp}
+					setField(whole, "typ", x.Type())
+					setField(whole, "pos", x.Pos())
+					out = append(out, mk(whole, b))
+					repl[x] = whole
+					continue
+				}
+			case *ssa.Field:
+				if l, ok := x.X.(*ssa.UnOp); ok && loadFields[l] != nil {
+					repl[x] = loadFields[l][x.Field]
+					continue
+				}
+			case *ssa.Store:
+				if a := asCand(x.Addr); a != nil {
+					cells := fieldCells[a]
+					if l, ok := x.Val.(*ssa.UnOp); ok && loadFields[l] != nil {
+						for i, c := range cells {
+							out = append(out, mk(&ssa.Store{Addr: c, Val: loadFields[l][i]}, b))
+						}
+						continue
+					}
+					for i, c := range cells {
+						ft := c.Type().Underlying().(*types.Pointer).Elem()
+						var v ssa.Value
+						if k, isC := x.Val.(*ssa.Const); isC && k.Value == nil {
+							v = ssa.NewConst(nil, ft)
+						} else {
+							fx := &ssa.Field{X: x.Val, Field: i}
+							setField(fx, "typ", ft)
+							setField(fx, "pos", x.Pos())
+							out = append(out, mk(fx, b))
+							v = fx
+						}
+						out = append(out, mk(&ssa.Store{Addr: c, Val: v}, b))
+					}
+					continue
+				}
+			case *ssa.DebugRef:
+				if asCand(x.X) != nil {
+					continue
+				}
+				if fa, ok := x.X.(*ssa.FieldAddr); ok && asCand(fa.X) != nil {
+					continue
+				}
+				if l, ok := x.X.(*ssa.UnOp); ok && asCand(l.X) != nil {
+					continue
+				}
+			}
+			out = append(out, in)
+		}
+		b.Instrs = out
+	}
+	for _, b := range f.Blocks {
+		for _, in := range b.Instrs {
+			for _, op := range in.Operands(nil) {
+				if *op == nil {
+					continue
+				}
+				for i := 0; i < 8; i++ {
+					r, ok := repl[*op]
+					if !ok {
+						break
+					}
+					*op = r
+				}
+			}
+		}
+	}
+	var locals []*ssa.Alloc
+	for _, l := range f.Locals {
+		if cand[l] {
+			if !l.Heap {
+				locals = append(locals, fieldCells[l]...)
+			}
+			continue
+		}
+		locals = append(locals, l)
+	}
+	f.Locals = append(locals, newLocals...)
+	return len(cand)
+}
+
+// ---- jump threading -----------------------------------------------------------------------------------------------------------------
+//
+// Inlining `v, err := helper()` leaves a join block of phis followed by `if err != nil`, although on every incoming edge the
+// outcome of that test is already decided (the helper's error return hands out the error it has just tested, its success return
+// hands out nil). threadJumps sends each such edge straight to the successor it is bound to take. The phis of the join are first
+// demoted to local cells (a store at the end of each predecessor, a load at each use) so that the edit needs no SSA repair;
+// promoteLocals then rebuilds the registers. The result is the control flow the code would have had without the helper: the
+// error path and the success path never meet, and a phi no longer mixes the value of one with the placeholder of the other.
+
+// noThread: packages whose rules are written against the source-level shape of the code.
+var noThread = map[string]bool{"lexer": true, "parser": true, "token": true, "ast": true}
+
+func pruneUnreachable(f *ssa.Function) {
+	reach := map[*ssa.BasicBlock]bool{}
+	var walk func(b *ssa.BasicBlock)
+	walk = func(b *ssa.BasicBlock) {
+		if reach[b] {
+			return
+		}
+		reach[b] = true
+		for _, s := range b.Succs {
+			walk(s)
+		}
+	}
+	if len(f.Blocks) == 0 {
+		return
+	}
+	walk(f.Blocks[0])
+	if f.Recover != nil {
+		walk(f.Recover)
+	}
+	var kept []*ssa.BasicBlock
+	for _, b := range f.Blocks {
+		if reach[b] {
+			kept = append(kept, b)
+		}
+	}
+	for _, b := range kept {
+		var preds []*ssa.BasicBlock
+		var keepIdx []int
+		for i, p := range b.Preds {
+			if reach[p] {
+				preds = append(preds, p)
+				keepIdx = append(keepIdx, i)
+			}
+		}
+		if len(preds) != len(b.Preds) {
+			for _, in := range b.Instrs {
+				if phi, ok := in.(*ssa.Phi); ok {
+					var ed []ssa.Value
+					for _, i := range keepIdx {
+						if i < len(phi.Edges) {
+							ed = append(ed, phi.Edges[i])
+						}
+					}
+					phi.Edges = ed
+				}
+			}
+			b.Preds = preds
+		}
+	}
+	for i, b := range kept {
+		b.Index = i
+	}
+	f.Blocks = kept
+}
+
+// knownNil: at the end of block p, is v known to be nil (1), known to be non-nil (2), or neither (0)?
+func knownNil(v ssa.Value, p *ssa.BasicBlock, dom map[*ssa.BasicBlock]map[*ssa.BasicBlock]bool) int {
+	if isNilConst(v) {
+		return 1
+	}
+	if definitelyNonNil(v) {
+		return 2
+	}
+	for g := range dom[p] {
+		iff, ok := lastInstr(g).(*ssa.If)
+		if !ok || len(g.Succs) != 2 || g.Succs[0] == g.Succs[1] {
+			continue
+		}
+		x, nonNilWhenTrue, isTest := errNilTest(iff.Cond)
+		if !isTest {
+			// also pointer / interface comparisons with nil
+			if bo, isB := iff.Cond.(*ssa.BinOp); isB && (bo.Op == token.EQL || bo.Op == token.NEQ) {
+				switch {
+				case isNilConst(bo.Y):
+					x, nonNilWhenTrue, isTest = bo.X, bo.Op == token.NEQ, true
+				case isNilConst(bo.X):
+					x, nonNilWhenTrue, isTest = bo.Y, bo.Op == token.NEQ, true
+				}
+			}
+		}
+		if !isTest || x != v {
+			continue
+		}
+		for i, s := range g.Succs {
+			if len(s.Preds) == 1 && (s == p || dom[p][s]) {
+				if (i == 0) == nonNilWhenTrue {
+					return 2
+				}
+				return 1
+			}
+		}
+	}
+	return 0
+}
+
+func threadJumps(f *ssa.Function) int {
+	total := 0
+	for round := 0; round < 8; round++ {
+		delete(domCache, f)
+		dom := domSets(f)
+		users := usersOf(f)
+		done := false
+		for _, b := range f.Blocks {
+			iff, ok := lastInstr(b).(*ssa.If)
+			if !ok || len(b.Preds) < 2 || len(b.Succs) != 2 || b.Succs[0] == b.Succs[1] || b == f.Blocks[0] {
+				continue
+			}
+			// not a loop header, and the block holds nothing but phis and the computation of the test
+			isHeader := false
+			for _, p := range b.Preds {
+				if p == b || dom[p][b] {
+					isHeader = true
+				}
+			}
+			if isHeader {
+				continue
+			}
+			var phis []*ssa.Phi
+			inB := map[ssa.Value]bool{}
+			pure := true
+			for _, in := range b.Instrs[:len(b.Instrs)-1] {
+				switch x := in.(type) {
+				case *ssa.Phi:
+					phis = append(phis, x)
+					inB[x] = true
+				case *ssa.BinOp:
+					inB[x] = true
+				case *ssa.UnOp:
+					if x.Op != token.NOT {
+						pure = false
+					}
+					inB[x] = true
+				case *ssa.DebugRef:
+				default:
+					pure = false
+				}
+			}
+			if !pure || len(phis) == 0 {
+				continue
+			}
+			for v := range inB {
+				if _, isPhi := v.(*ssa.Phi); isPhi {
+					continue
+				}
+				for _, u := range users[v] {
+					if u.Block() != b {
+						pure = false
+					}
+				}
+			}
+			if !pure {
+				continue
+			}
+			// evaluate the test for the edge from predecessor i
+			var eval func(v ssa.Value, i int) (bool, bool)
+			eval = func(v ssa.Value, i int) (bool, bool) {
+				if phi, isPhi := v.(*ssa.Phi); isPhi && phi.Block() == b {
+					v = phi.Edges[i]
+				}
+				if k, isC := constBool(v); isC {
+					return k, true
+				}
+				switch x := v.(type) {
+				case *ssa.UnOp:
+					if x.Op == token.NOT && inB[x] {
+						r, known := eval(x.X, i)
+						return !r, known
+					}
+				case *ssa.BinOp:
+					if !inB[x] || (x.Op != token.EQL && x.Op != token.NEQ) {
+						return false, false
+					}
+					var other ssa.Value
+					switch {
+					case isNilConst(x.Y):
+						other = x.X
+					case isNilConst(x.X):
+						other = x.Y
+					default:
+						return false, false
+					}
+					if phi, isPhi := other.(*ssa.Phi); isPhi && phi.Block() == b {
+						other = phi.Edges[i]
+					}
+					switch knownNil(other, b.Preds[i], dom) {
+					case 1:
+						return x.Op == token.EQL, true
+					case 2:
+						return x.Op == token.NEQ, true
+					}
+				}
+				return false, false
+			}
+			type plan struct {
+				pred int
+				to   *ssa.BasicBlock
+			}
+			var plans []plan
+			for i := range b.Preds {
+				if len(b.Preds[i].Succs) == 2 && b.Preds[i].Succs[0] == b.Preds[i].Succs[1] {
+					continue
+				}
+				r, known := eval(iff.Cond, i)
+				if !known {
+					continue
+				}
+				to := b.Succs[1]
+				if r {
+					to = b.Succs[0]
+				}
+				// the target's phis must be extendable: their operand for b is a phi of b (take its operand) or defined elsewhere
+				okTarget := to != b
+				for _, in := range to.Instrs {
+					tp, isPhi := in.(*ssa.Phi)
+					if !isPhi {
+						break
+					}
+					j := predIndex(to, b)
+					if j < 0 || j >= len(tp.Edges) {
+						okTarget = false
+						break
+					}
+					if inB[tp.Edges[j]] {
+						if _, isPhi := tp.Edges[j].(*ssa.Phi); !isPhi {
+							okTarget = false
+						}
+					}
+				}
+				if okTarget {
+					plans = append(plans, plan{i, to})
+				}
+			}
+			if len(plans) == 0 {
+				continue
+			}
+			// (highest predecessor index first, so that the remaining indices stay valid while edges are moved; the phi operands
+			// of the targets are appended in the same order as the predecessors)
+			sort.Slice(plans, func(x, y int) bool { return plans[x].pred > plans[y].pred })
+			// extend the targets' phis (before the phis of b disappear)
+			for _, pl := range plans {
+				j := predIndex(pl.to, b)
+				for _, in := range pl.to.Instrs {
+					tp, isPhi := in.(*ssa.Phi)
+					if !isPhi {
+						break
+					}
+					v := tp.Edges[j]
+					if phi, isP := v.(*ssa.Phi); isP && phi.Block() == b {
+						v = phi.Edges[pl.pred]
+					}
+					tp.Edges = append(tp.Edges, v)
+				}
+			}
+			// demote the phis of b
+			entry := f.Blocks[0]
+			for _, phi := range phis {
+				cell := &ssa.Alloc{Comment: phi.Comment}
+				setField(cell, "typ", types.NewPointer(phi.Type()))
+				setField(cell, "pos", phi.Pos())
+				setField(cell, "block", entry)
+				entry.Instrs = append([]ssa.Instruction{cell}, entry.Instrs...)
+				f.Locals = append(f.Locals, cell)
+				for i, p := range b.Preds {
+					st := &ssa.Store{Addr: cell, Val: phi.Edges[i]}
+					setField(st, "block", p)
+					n := len(p.Instrs)
+					p.Instrs = append(p.Instrs[:n-1:n-1], st, p.Instrs[n-1])
+				}
+				for _, u := range users[phi] {
+					mkLoad := func(at *ssa.BasicBlock, before ssa.Instruction) *ssa.UnOp {
+						l := &ssa.UnOp{Op: token.MUL, X: cell}
+						setField(l, "typ", phi.Type())
+						setField(l, "pos", phi.Pos())
+						setField(l, "block", at)
+						var out []ssa.Instruction
+						for _, in := range at.Instrs {
+							if in == before {
+								out = append(out, l)
+							}
+							out = append(out, in)
+						}
+						at.Instrs = out
+						return l
+					}
+					if up, isPhi := u.(*ssa.Phi); isPhi {
+						for m, e := range up.Edges {
+							if e == ssa.Value(phi) && m < len(up.Block().Preds) {
+								pm := up.Block().Preds[m]
+								up.Edges[m] = mkLoad(pm, lastInstr(pm))
+							}
+						}
+						continue
+					}
+					l := mkLoad(u.Block(), u)
+					for _, op := range u.Operands(nil) {
+						if *op == ssa.Value(phi) {
+							*op = l
+						}
+					}
+				}
+			}
+			gone := map[ssa.Instruction]bool{}
+			for _, phi := range phis {
+				gone[phi] = true
+			}
+			removeInstrs(f, gone)
+			// retarget the decided edges
+			for _, pl := range plans {
+				p := b.Preds[pl.pred]
+				for k, s := range p.Succs {
+					if s == b {
+						p.Succs[k] = pl.to
+						break
+					}
+				}
+				b.Preds = append(b.Preds[:pl.pred:pl.pred], b.Preds[pl.pred+1:]...)
+				pl.to.Preds = append(pl.to.Preds, p)
+			}
+			total += len(plans)
+			done = true
+			break
+		}
+		if !done {
+			break
+		}
+		pruneUnreachable(f)
+		promoteLocals(f)
+	}
+	return total
 }
